@@ -1050,6 +1050,9 @@ pub fn run(run: &'static Run) {
          sideband: all sequences of 13 band tokens (empty payloads, LF-only, max-size, non-band, delimiter) x Read buffer sizes/BufRead/read_line_to_string x interrupt position. \
          non-trivial = at least one line was accepted and compared byte-for-byte (or, for prefixes, the prefix class was decided by every decoder)",
     );
+    if run.quick() {
+        run.rule("quick tier: every prefix once with full payload (band byte rotating) and only boundary prefixes (<=40, >=65480, 2^k, 2^k+-1, malformed) in all combinations; three-token streams with 4 full-read scripts and one configuration; read/peek/reset scripts <=4 (thorough <=5 for streams of <=2 tokens); band sequences <=3 (thorough <=4)");
+    }
     run.assume("reference framing rules transcribed from git's protocol-common documentation: 4 hex digits (either case) = total length, 0000/0001/0002 control, 0003/0004 invalid, max 65520");
     run.assume("for a refused (malformed/oversized) prefix the blocking reader is expected to have consumed just the 4 prefix bytes");
     run.budget_secs(run.pick(40.0, 600.0));
@@ -1092,7 +1095,7 @@ pub fn run(run: &'static Run) {
     // ---- prefix ----
     run.sub_with(
         "prefix",
-        vkit::Opts::default().chunk(4096).watchdog(20.0).isolate(),
+        vkit::Opts::default().chunk(16384),
         |emit| {
             let firsts: &[u8] = &[1, 2, 3, b'a'];
             let mut prefixes: Vec<Vec<u8>> = Vec::new();
@@ -1118,16 +1121,19 @@ pub fn run(run: &'static Run) {
             prefixes.push(b" 010".to_vec());
             prefixes.push(b"+010".to_vec());
             prefixes.push(b"-001".to_vec());
-            for p in prefixes {
-                for &first in firsts {
+            for (i, p) in prefixes.iter().enumerate() {
+                let cl = classify(p);
+                let wants = matches!(cl, Pfx::Want(_) | Pfx::Bad("oversized"));
+                let v = p.iter().fold(0usize, |a, &ch| a * 16 + hexval(ch).unwrap_or(0) as usize);
+                let boundary = !wants || v <= 40 || v >= 65480 || (v & (v - 1)) == 0 || ((v + 1) & v) == 0 || ((v - 1) & (v - 2)) == 0;
+                for (fi, &first) in firsts.iter().enumerate() {
                     for avail in 0..3u8 {
-                        let cl = classify(&p);
-                        let wants = matches!(cl, Pfx::Want(_) | Pfx::Bad("oversized"));
                         // without payload all three availabilities describe nearly the same stream: keep 0 and 2, and one band byte
                         if !wants && (avail == 1 || first != 1) {
                             continue;
                         }
-                        if quick && wants && avail == 1 && first != 2 {
+                        // quick tier: every prefix once (full payload, band byte rotating), boundary prefixes in every combination
+                        if quick && !boundary && (avail != 0 || fi != i % 4) {
                             continue;
                         }
                         emit(PrefixCase { prefix: B(p.clone()), first, avail });
@@ -1146,7 +1152,7 @@ pub fn run(run: &'static Run) {
     enumerate::seqs(&[b'R', b'P', b'X'], 1, max_script, |s| scripts.push(String::from_utf8(s.to_vec()).unwrap()));
     run.sub_with(
         "stream",
-        vkit::Opts::default().watchdog(20.0),
+        vkit::Opts::default().chunk(65536),
         |emit| {
             let toks: Vec<u8> = (0..TOKENS as u8).collect();
             let mut seqs: Vec<Vec<u8>> = Vec::new();
@@ -1159,7 +1165,14 @@ pub fn run(run: &'static Run) {
                     if long > 0 && (script.len() > 4 || script.contains('X') && quick) {
                         continue;
                     }
-                    if quick && tokens.len() == 3 && script.len() > 3 {
+                    // three-token streams: scripts up to 4 calls (quick: the four scripts that read everything, one configuration)
+                    if tokens.len() == 3 && script.len() > 4 {
+                        continue;
+                    }
+                    if quick && tokens.len() == 3 {
+                        if ["RRRR", "PRPR", "PPRX", "RXRR"].contains(&script.as_str()) {
+                            emit(StreamCase { tokens: tokens.clone(), script: script.clone(), delims: 1, fail_on_err: true, chunk: usize::MAX, cuts: vec![], truncate: 0 });
+                        }
                         continue;
                     }
                     for delims in 0..3u8 {
@@ -1178,7 +1191,7 @@ pub fn run(run: &'static Run) {
                     }
                 }
                 // every 1- and 2-cut split and every truncation of short streams, with the two scripts that read everything
-                if long == 0 && len > 0 && len <= 24 {
+                if long == 0 && len > 0 && len <= 24 && !(quick && tokens.len() == 3) {
                     for script in ["RRRR", "PRPRPRPR", "PPRRX"] {
                         enumerate::cuts(len, 2, |cuts| {
                             if cuts.is_empty() {
